@@ -209,6 +209,18 @@ func expectRead(v *RColl, kind, arg string) string {
 			fmt.Fprintf(&sb, "%s=%s;", keys[i], v.Items[string(keys[i])].Val)
 		}
 		return sb.String()
+	case "KeysAsc":
+		var sb strings.Builder
+		for _, k := range keys {
+			fmt.Fprintf(&sb, "%s;", k)
+		}
+		return sb.String()
+	case "KeysDesc":
+		var sb strings.Builder
+		for i := len(keys) - 1; i >= 0; i-- {
+			fmt.Fprintf(&sb, "%s;", keys[i])
+		}
+		return sb.String()
 	case "AscStop1":
 		if len(keys) == 0 {
 			return ""
@@ -286,6 +298,30 @@ func (s *SchedWorld) RVisit(name string, desc bool, stopAfter int) {
 	}
 	if stopAfter == 1 && !desc {
 		kind = "AscStop1"
+	}
+	s.record(name, kind, "", t0, sb.String(), err)
+}
+
+// RVisitKeyOnly: a whole visit without values (its result is not compared with
+// the values, only the keys).
+func (s *SchedWorld) RVisitKeyOnly(name string, desc bool) {
+	BeginOp("VisitKeyOnly")
+	t0 := Tick()
+	var sb strings.Builder
+	v := func(it *gkvlite.Item) bool {
+		YieldCallback()
+		fmt.Fprintf(&sb, "%s;", it.Key)
+		return true
+	}
+	var err error
+	if desc {
+		err = s.Colls[name].VisitItemsDescend([]byte{0xff, 0xff}, false, v)
+	} else {
+		err = s.Colls[name].VisitItemsAscend([]byte{}, false, v)
+	}
+	kind := "KeysAsc"
+	if desc {
+		kind = "KeysDesc"
 	}
 	s.record(name, kind, "", t0, sb.String(), err)
 }
